@@ -388,7 +388,7 @@ PROPS['C02']['min_obs'] = dict(PROPS['C02']['min_obs'])
 PROPS['C02']['min_obs']['quick'] = dict(PROPS['C02']['min_obs'].get('quick', {}), **{'getters_compared:ARP': 480, 'getters_compared:DHCP4': 1180, 'getters_compared:DNS': 692, 'getters_compared:Ether': 460, 'getters_compared:HopByHopExtensionHeader': 623, 'getters_compared:ICMP6NeighborSolicitation': 479, 'getters_compared:ICMP6Redirect': 373, 'getters_compared:ICMP6RouterAdvertisement': 692, 'getters_compared:ICMPEcho': 534, 'getters_compared:IP4': 799, 'getters_compared:IP6': 533, 'getters_compared:RRCP': 1012, 'getters_compared:SNAP': 373, 'getters_compared:TCP': 961, 'getters_compared:UDP': 320})
 
 # workload features added after the fifth and sixth round of seeded changes: each must actually have been exercised
-for _p, _m in {'C04': {'notification_channel_full': 30}, 'C05': {'histories_with_unread_notification_channel': 30}, 'C07': {'tx_ok:dhcp-reply': 10000},
+for _p, _m in {'C04': {'notification_channel_full': 30}, 'C05': {'histories_with_unread_notification_channel': 30}, 'C07': {'tx_ok:dhcp-reply': 10000, 'tx_ok:ValidateDefaultRouter': 140}, 'C03': {'dhcp_legacy_fields_round_trips': 1000},
                'C09': {'close_bubble_quiet_periods': 8}, 'C11': {'dhcp_pools_crowded': 80}, 'C12': {'dhcp_pools_crowded': 80},
                'C13': {'router_requests_sent_unicast': 70}, 'C15': {'headers_completed_concurrently': 100000}, 'C16': {'views_checked_on_padded_frames': 600},
                'C17': {'dns_messages_over_1k': 300, 'dns_compression_pointers_beyond_1k': 200}, 'C18': {'restart_offer_probes': 700}}.items():
